@@ -14,7 +14,7 @@ META = {
             "class H (in_H), either value of grammar-extras, every start rule, every input, either setting of error detail, no call limit, "
             "and all fuels that suffice, exec over gen_env and exec over vm_env return the same result kind, position, token queue, stack "
             "contents, attempt position and attempt lists, hence the same Pairs / the same error position, positives and negatives; "
-            "C02_vm_terminates_when_generated_does gives termination of the VM from termination of the generated parser. H excludes "
+            "C02_termination_equivalent: the generated parser returns exactly when the VM returns (simulation in both directions). H excludes "
             "exactly the classes in which the two back-ends really differ (WHITESPACE/COMMENT declared `!`; a user rule named like a "
             "built-in the VM hard-codes; with grammar-extras `#t = e?` / `#t = e*`; an atomic-rule repetition whose body can fail with the "
             "stack popped, which the optimizer prevents since fix 5dcbc11): each has a Coq witness (C02_*_refuted) replayed on the real "
@@ -23,8 +23,8 @@ META = {
             "against the real pest_vm and against both extracted models on all inputs up to a length bound.",
     "note": "Trusted: Coq kernel; extraction; the syn-based reader of the emitted code (strict: unknown shapes are errors) and the runner; "
             "VmCompile.v as the model of vm/src/lib.rs and Exec.v as the model of parser_state.rs (tied to the code by the batch runs here and "
-            "by C01/C03); rustc for the compiled batch. Not proved: termination of the generated parser from termination of the VM "
-            "(the converse simulation). The call limit is outside the statement (the back-ends count different calls).",
+            "by C01/C03); rustc for the compiled batch. The call limit is outside the statement: the back-ends count different calls, and the "
+            "generated `repeat` of primitives makes no call at all (with a limit set the VM stops a non-progressing atomic repetition, the generated parser loops).",
     "design_ref": "DESIGN.md section 3, C02; section 4 rows 3, 11a, 11b, 13",
     "coq_targets": ["props/C02.vo", "Extract/GenExtract.vo"],
     "bins": ["c02"],
@@ -152,7 +152,7 @@ def run(tier, seed, replay=None):
     cmds = []
     for feat in ("", "extras"):
         for i in range(nseeds):
-            cmds.append("%s tv %d %d | %s" % (builds[feat], ntv, seed * 100 + i, runner))
+            cmds.append("%s tv %d %d %s | %s" % (builds[feat], ntv, seed * 100 + i, "" if i == 0 else "nofixed", runner))
     batches = {}
     for feat, nb in (("", nbatch), ("extras", nbatch_x)):
         brc, bout, exe = build_batch(builds[feat], nb, seed, feat)
